@@ -258,7 +258,7 @@ Lemma body_inv : forall p avail h s r l h' s' t local base,
   x_rb (s_fl s') = false -> x_drop (s_fl s') = false ->
   exists t' local', Inv base (is_ok r) h s t local l h' s' t' local'.
 Proof.
-  induction p as [o | m chk k IHk | chk k IHk | b IHb chk k IHk | n k IHk | n k IHk];
+  induction p as [o | m chk k IHk | chk k IHk | b IHb chk rcv k IHk | n k IHk | n k IHk];
     intros avail h s r l h' s' t local base H Htx HS Hsc Hg Hrb Hdr; cbn [run_body] in H; cbn [scoped] in Hsc.
   - (* Done *)
     exists t, local. destruct o; inversion H; subst; apply inv_refl; assumption.
@@ -334,9 +334,14 @@ Proof.
         -- exists t1, local1. subst s1x. rewrite Eo. rewrite Eo in St. split; [exact St | apply HSp; exact HS].
         -- exists t, local. subst s1x. rewrite Eo. rewrite Eo in St.
            split; [eapply inv_set_spign; exact St | exact HS].
-    + inversion H; subst r l h' s'. clear H.
-      destruct (Hstep Hrb Hdr) as [[t1 [local1 [l0 [Eo [St HSp]]]]] | [e' [Er _]]]; [|discriminate].
-      exists t1, local1. eapply inv_ok_false; exact St.
+    + destruct rcv.
+      * destruct (run_body E C fault k h1 s1) as [[[r1 l1] h2] s2] eqn:Ek.
+        eapply Hcont; [exact Ek | exact H |]. intros R D.
+        destruct (Hstep R D) as [[t1 [local1 [l0 [Eo [St HSp]]]]] | [e' [Er _]]]; [|discriminate].
+        exists t1, local1. split; [exact St | apply HSp; exact HS].
+      * inversion H; subst r l h' s'. clear H.
+        destruct (Hstep Hrb Hdr) as [[t1 [local1 [l0 [Eo [St HSp]]]]] | [e' [Er _]]]; [|discriminate].
+        exists t1, local1. eapply inv_ok_false; exact St.
   - (* Save *)
     destruct (h_sp E C fault true (NUser n) h s) as [h1 s1] eqn:Es.
     destruct h1 as [e|].
